@@ -38,6 +38,11 @@ Lemma isin_correct X a : cont X a -> cont (isin X) (sin a).
 Proof. intro HX. exact (I.sin_correct prec X (Xreal a) HX). Qed.
 Lemma isqrt_correct X a : cont X a -> cont (isqrt X) (sqrt a).
 Proof. intro HX. exact (I.sqrt_correct prec X (Xreal a) HX). Qed.
+Lemma iln_correct X a : 0 < a -> cont X a -> cont (iln X) (ln a).
+Proof.
+  intros Ha HX. pose proof (I.ln_correct prec X (Xreal a) HX) as H. cbn in H. unfold Xln' in H.
+  rewrite (is_positive_true a Ha) in H. exact H.
+Qed.
 Lemma ipow_correct X a n : cont X a -> cont (ipow X n) (a ^ Pos.to_nat n).
 Proof. intro HX. exact (I.power_pos_correct prec n X (Xreal a) HX). Qed.
 
@@ -117,15 +122,65 @@ Proof.
     + apply idiv_correct; [pose proof gv_pi_pos; lra|apply (iZ_correct 3)|apply two_pi_correct].
     + apply isin_correct, imul_correct; [apply two_pi_correct|exact HX].
 Qed.
+Lemma i_spline_correct ndim r L lv : cont L lv -> cont (i_spline ndim r X L) (corR_spline ndim (Q2R r) h lv).
+Proof.
+  intro HL. unfold i_spline, corR_spline. cbv zeta.
+  assert (H2 : cont (imul X X) (h * h)) by (apply imul_correct; exact HX).
+  assert (R2 : cont (imul (iQ r) (iQ r)) (Q2R r * Q2R r)) by (apply imul_correct; apply iQ_correct).
+  assert (Ln2 : cont i_ln2 (ln 2)) by (apply (iln_correct _ 2); [lra|apply (iZ_correct 2)]).
+  assert (Q12 : Q2R (1#2) = 1/2) by (unfold Q2R; cbn; lra).
+  assert (Q32 : Q2R (3#2) = 3/2) by (unfold Q2R; cbn; lra).
+  assert (Q116 : Q2R (11#6) = 11/6) by (unfold Q2R; cbn; lra).
+  destruct (Z.eqb ndim 1).
+  - apply isub_correct; [rewrite <- Q12; apply imul_correct; [apply iQ_correct|exact R2]|].
+    apply imul_correct; [exact H2|]. apply isub_correct; [|exact HL]. apply isub_correct; [rewrite <- Q32; apply iQ_correct|exact Ln2].
+  - destruct (Z.eqb ndim 2).
+    + apply isub_correct; [exact R2|]. apply imul_correct; [exact H2|]. apply isub_correct; [apply (iZ_correct 1)|exact HL].
+    + apply isub_correct; [rewrite <- Q32; apply imul_correct; [apply iQ_correct|exact R2]|].
+      apply imul_correct; [exact H2|]. apply isub_correct; [|exact HL]. apply isub_correct; [rewrite <- Q116; apply iQ_correct|exact Ln2].
+Qed.
+Lemma i_spline2_correct L lv : cont L lv -> cont (i_spline2 X L) (corR_spline2 h lv).
+Proof.
+  intro HL. unfold i_spline2, corR_spline2. cbv zeta.
+  assert (H2 : cont (imul X X) (h * h)) by (apply imul_correct; exact HX).
+  assert (Q14 : Q2R (-(1#4)) = -(1/4)) by (unfold Q2R; cbn; lra).
+  assert (Q34 : Q2R (-(3#4)) = -(3/4)) by (unfold Q2R; cbn; lra).
+  apply ineg_correct. apply iadd_correct; [rewrite <- Q14; apply iQ_correct|].
+  apply imul_correct; [exact H2|]. apply iadd_correct; [apply (iZ_correct 1)|].
+  apply imul_correct; [exact H2|]. apply iadd_correct; [rewrite <- Q34; apply iQ_correct|exact HL].
+Qed.
 End Forms.
+
+(* on the sphere *)
+Lemma i_exponential_sph_correct nu X a : cont X a -> cont (i_exponential_sph nu X) (corR_exponential_sph (Q2R nu) a).
+Proof. intro HX. unfold i_exponential_sph, corR_exponential_sph. apply iexp_correct, ineg_correct, imul_correct; [apply iQ_correct|exact HX]. Qed.
+Lemma i_geometric_sph_correct rho X a : (0 <= rho)%Q -> (rho < 1)%Q -> cont X a -> cont (i_geometric_sph rho X) (corR_geometric_sph (Q2R rho) a).
+Proof.
+  intros H0 H1 HX. unfold i_geometric_sph, corR_geometric_sph.
+  assert (R0 : 0 <= Q2R rho) by (replace 0 with (Q2R 0) by (unfold Q2R; cbn; lra); apply Qle_Rle; exact H0).
+  assert (R1 : Q2R rho < 1) by (replace 1 with (Q2R 1) by (unfold Q2R; cbn; lra); apply Qlt_Rlt; exact H1).
+  apply idiv_correct.
+  - (* 1 - 2 rho cos a + rho^2 >= (1 - rho)^2 > 0 *)
+    pose proof (COS_bound a) as [C0 C1].
+    assert (0 < 1 - 2 * Q2R rho * cos a + Q2R rho * Q2R rho) by nra.
+    intro E. pose proof (sqrt_lt_R0 _ H). lra.
+  - apply isub_correct; [apply (iZ_correct 1)|apply iQ_correct].
+  - apply isqrt_correct. apply iadd_correct; [|apply imul_correct; apply iQ_correct].
+    apply isub_correct; [apply (iZ_correct 1)|]. apply imul_correct; [|apply icos_correct; exact HX].
+    apply imul_correct; [apply (iZ_correct 2)|apply iQ_correct].
+Qed.
 
 (* the enclosure theorem: for every structure of the executable model, every bracket [hlo, hhi] of the
    normalised distance and every real h inside the bracket, the real closed form lies in the computed interval *)
-Lemma cor_transI_encloses type param hlo hhi h X :
-  cor_transI type param hlo hhi = Some X -> Q2R hlo <= h <= Q2R hhi ->
-  exists v, cor_R type param h = Some v /\ cont X v.
+Lemma cor_transI_encloses type param ndim field hlo hhi h X :
+  (0 < field)%Q ->
+  cor_transI type param ndim field hlo hhi = Some X -> Q2R hlo <= h <= Q2R hhi ->
+  exists v, cor_R type param ndim field h = Some v /\ cont X v.
 Proof.
-  intros HI Hh. pose proof (ibr_correct hlo hhi h Hh) as Hc.
+  intros Hf HI Hh. pose proof (ibr_correct hlo hhi h Hh) as Hc.
+  assert (Rf : 0 < Q2R field) by (replace 0 with (Q2R 0) by (unfold Q2R; cbn; lra); apply Qlt_Rlt; exact Hf).
+  assert (T10 : 0 < Q2R (1 # 10000000000)) by (unfold Q2R; cbn; lra).
+  assert (T4 : 0 < Q2R (1 # 10000)) by (unfold Q2R; cbn; lra).
   unfold cor_transI in HI. unfold cor_R. cbv zeta in HI.
   destruct type as [|p|p]; [discriminate| |discriminate].
   do 6 (try (destruct p as [p|p|]); try discriminate).
@@ -160,6 +215,32 @@ Proof.
       injection HI as <-. eexists; split; [reflexivity|].
       assert (Q2R hhi <= Q2R (1 # 100000)) by (apply Qle_Rle; exact H2).
       destruct (Rlt_dec (Q2R (1 # 100000)) h); [lra|]. apply (iZ_correct 1).
+  - (* 22 Spline-2 *)
+    destruct (qleb_spec (1 # 10000) hlo) as [H1|H1].
+    + injection HI as <-. eexists; split; [reflexivity|].
+      assert (Q2R (1 # 10000) <= Q2R hlo) by (apply Qle_Rle; exact H1).
+      destruct (Rle_dec (Q2R (1 # 10000)) h); [|lra].
+      apply (i_spline2_correct _ _ Hc). apply iln_correct; [lra|exact Hc].
+    + destruct (qltb_spec hhi (1 # 10000)) as [H2|H2]; [|discriminate].
+      injection HI as <-. eexists; split; [reflexivity|].
+      assert (Q2R hhi < Q2R (1 # 10000)) by (apply Qlt_Rlt; exact H2).
+      destruct (Rle_dec (Q2R (1 # 10000)) h); [lra|].
+      apply (i_spline2_correct _ _ Hc). apply (iZ_correct 0).
+  - (* 14 Spline *)
+    destruct (qltb field (1 # 10000)).
+    + injection HI as <-. eexists; split; [reflexivity|]. apply (i_spline_correct _ _ Hc). apply (iZ_correct 0).
+    + destruct (qleb_spec (1 # 10000000000) hlo) as [H1|H1].
+      * injection HI as <-. eexists; split; [reflexivity|].
+        assert (Q2R (1 # 10000000000) <= Q2R hlo) by (apply Qle_Rle; exact H1).
+        destruct (Rle_dec (Q2R (1 # 10000000000)) h); [|lra].
+        apply (i_spline_correct _ _ Hc). apply iln_correct.
+        -- apply Rdiv_lt_0_compat; lra.
+        -- apply idiv_correct; [lra|exact Hc|apply iQ_correct].
+      * destruct (qltb_spec hhi (1 # 10000000000)) as [H2|H2]; [|discriminate].
+        injection HI as <-. eexists; split; [reflexivity|].
+        assert (Q2R hhi < Q2R (1 # 10000000000)) by (apply Qlt_Rlt; exact H2).
+        destruct (Rle_dec (Q2R (1 # 10000000000)) h); [lra|].
+        apply (i_spline_correct _ _ Hc). apply (iZ_correct 0).
   - (* 10 Stable *)
     destruct (qeqb param 1); [injection HI as <-; eexists; split; [reflexivity|exact (i_exponential_correct _ _ Hc)]|].
     destruct (qeqb param 2); [injection HI as <-; eexists; split; [reflexivity|exact (i_gaussian_correct _ _ Hc)]|].
@@ -203,11 +284,12 @@ Proof.
 Qed.
 
 (* the rational enclosure returned by the executable model contains the real closed form *)
-Lemma cor_trans_encloses type param hlo hhi h a b :
-  cor_trans type param hlo hhi = Some (a, b) -> Q2R hlo <= h <= Q2R hhi ->
-  exists v, cor_R type param h = Some v /\ Q2R a <= v <= Q2R b.
+Lemma cor_trans_encloses type param ndim field hlo hhi h a b :
+  (0 < field)%Q ->
+  cor_trans type param ndim field hlo hhi = Some (a, b) -> Q2R hlo <= h <= Q2R hhi ->
+  exists v, cor_R type param ndim field h = Some v /\ Q2R a <= v <= Q2R b.
 Proof.
-  unfold cor_trans. destruct (cor_transI type param hlo hhi) as [X|] eqn:E; [|discriminate].
-  intros Hq Hh. destruct (cor_transI_encloses type param hlo hhi h X E Hh) as [v [Hv Hc]].
+  intro Hf. unfold cor_trans. destruct (cor_transI type param ndim field hlo hhi) as [X|] eqn:E; [|discriminate].
+  intros Hq Hh. destruct (cor_transI_encloses type param ndim field hlo hhi h X Hf E Hh) as [v [Hv Hc]].
   exists v. split; [exact Hv|]. apply (i2qq_correct X a b v Hq Hc).
 Qed.
